@@ -57,12 +57,25 @@ def mem_cases(tier):
     return cs
 
 
+def cancel_cases(tier):
+    # try_event_cancelation() from state connection_changed (5) and connected (3); the connected case divides the time since the anchor by
+    # the (symbolic) interval and multiplies back: cvc5 with bit-vectors as integers
+    cs = [{'CFG': c, 'STATE': 5, 'SCA': 0} for c in (0, 1)]
+    if tier == 'thorough':
+        cs += [{'CFG': 0, 'STATE': 3, 'SCA': 0, '_backend': 'cvc5int'}]      # no verdict within 25 min when measured; the arithmetic is decided at unit level by C23
+    return cs
+
+
 PROPERTY = Property(
     'C21',
     [Harness('c21_recv', LLB, 'harness/c21_recv.c', recv_cases, unwind=40, timeout=3000,
              description='lemma (a): handle_ll_control_data on a symbolic LL_CONNECTION_UPDATE_IND / LL_CHANNEL_MAP_IND / LL_PHY_UPDATE_IND: '
                          'deferred only if the instant is ahead, otherwise terminated with 0x28',
              bounds='all 2^16 x 2^16 (instant, event counter) pairs, all payload bytes, all feature / flag / procedure-timeout states'),
+     Harness('c21_cancel', LLB, 'harness/c21_cancel.c', cancel_cases, unwind=40, timeout=3000,
+             description='lemma (e): try_event_cancelation() (pending data pulls the planned event closer) never touches the event planned at the instant of a '
+                         'connection update; in state connected a pulled back event stays on the interval grid',
+             bounds='state connection_changed and connected; all valid connection parameters, planned distance 1..latency+1, radio disarm answer (possible?, time since anchor) symbolic'),
      Harness('c21_step', LLB, 'harness/c21_step.c', step_cases, unwind=40, timeout=3000,
              description='lemmas (b)+(c): one end_event() / timeout() with a deferred PDU: the counter never passes the instant; at the instant '
                          'exactly the carried parameters are in force and the deferral is cleared; before it nothing changes',
